@@ -1,7 +1,8 @@
 (* C14 — Sequencers hand out disjoint gap-free ranges; cursor is the published prefix. *)
 From Coq Require Import List Arith NArith Lia.
 From DC Require Import Disruptor.Claims Disruptor.Pipeline.
-From DC Require Disruptor.SeqApi Disruptor.SeqApiProofs Disruptor.SeqApiMulti Disruptor.SeqApiInOrder Disruptor.MultiPub.
+From DC Require Disruptor.SeqApi Disruptor.SeqApiProofs Disruptor.SeqApiMulti Disruptor.SeqApiInOrder Disruptor.MultiPub Disruptor.MultiReplay.
+From Coq Require Import ZArith.
 Import ListNotations.
 
 (* concurrent claims by any number of threads (any interleaving of loads and compare-and-swaps on the high
@@ -103,6 +104,14 @@ Theorem C14_multi_sequencer_api_in_claim_order : forall k ng l,
   SeqApi.check true SeqApi.c_init l (SeqApi.mp_run (SeqApi.mp_init (2 ^ k) ng) l) = 0%N.
 Proof. exact SeqApiInOrder.mp_inorder_property. Qed.
 
+(* every multi-producer execution explored under the scheduler is replayed on MultiPub.v (extracted MultiReplay.replay); an
+   accepted execution ends in a state whose cursor covers only published sequences *)
+Theorem C14_replayed_multi_producer_run_cursor_only_published : forall N, 1 <= N -> forall gating l r',
+  MultiReplay.replay N gating MultiReplay.rinit l 0 = ((-1)%Z, r') ->
+  forall q, 1 <= q <= MultiPub.cursor (MultiReplay.rm r') -> MultiPub.pub (MultiReplay.rm r') q = true.
+Proof. exact MultiReplay.replay_cursor_only_published. Qed.
+
+Print Assumptions C14_replayed_multi_producer_run_cursor_only_published.
 Print Assumptions C14_claims_tile_in_claim_order.
 Print Assumptions C14_multi_sequencer_api_in_claim_order.
 Print Assumptions C14_multi_concurrent_never_past_unpublished.
